@@ -225,7 +225,7 @@ func TestVtracePublicSteps(t *testing.T) {
 	}
 	for ci, c := range ctors {
 		for pi, pl := range ptLens {
-			if !hk.Thorough() && (pi+ci+int(hk.Seed()))%2 != 0 && pl != 33 {
+			if !hk.Thorough() && (pi+ci+int(hk.Seed()))%2 != 0 && pl != 33 && !(pl == 0 && ci == 0) { // (tag-only messages under the default constructor always run)
 				continue
 			}
 			aadLen := []int{0, 13, 16, 70, 200}[(pi+ci)%5]
